@@ -16,6 +16,10 @@ type Plan struct {
 	// StoreFaults[i] is the outcome of the i-th store call ("" = ok).
 	StoreFaults []string `json:"store_faults,omitempty"`
 	StoreTTL    string   `json:"store_ttl,omitempty"` // exact | late | never
+	// GetFaults[key][n] is the outcome of the n-th Get of that key (overrides StoreFaults)
+	GetFaults map[string][]string `json:"get_faults,omitempty"`
+	// MeasureAlloc: record the bytes allocated during every client request
+	MeasureAlloc bool `json:"measure_alloc,omitempty"`
 	// Knobs
 	ShardMode   string  `json:"shard_mode,omitempty"` // "" hash | "one" | "two"
 	Policy      string  `json:"policy"`               // uniform | prio | freeze | fifo
